@@ -42,6 +42,7 @@ def run_driver(ctx, exe, model, seed, n_unit, n_prog, tag):
 
 # model-independent predicates, most telling first (engine-level statements of the property text)
 KIND_ORDER = [
+    "delegated-account-later-transaction-invalidated",
     "delegated-account-nonce-advanced",
     "top-level-delegated-create-not-halted",
     "engine-differs-from-stock-while-guard-inert",
@@ -96,7 +97,7 @@ def run(ctx):
     if not ok:
         raise RuntimeError("cargo build failed:\n" + out[-3000:])
     model = core.ocaml_build("guard", "guard", "guard_drv")
-    n_unit, n_prog = (4000, 3000) if ctx.quick else (120000, 90000)
+    n_unit, n_prog = (8000, 8000) if ctx.quick else (120000, 90000)
     d = run_driver(ctx, bins["guard"], model, ctx.seed, n_unit, n_prog, "main")
     first = core.diff_lines(d["impl"], d["model"])
     corr_ok = first is None and not d["direct"]
